@@ -1002,6 +1002,13 @@ impl<'tcx> Cx<'tcx> {
                     a.push(self.operand(&arg.node, body, env, mono));
                 }
                 t.set("args", J::Arr(a));
+                if !matches!(func, Operand::Constant(_)) {
+                    // callee held in a local of zero-sized fn-item type (shims): still statically known
+                    if let TyKind::FnDef(def, fargs) = func.ty(body, self.tcx).kind() {
+                        let f = self.fn_ref(*def, fargs, env, mono);
+                        t.set("fdef", f);
+                    }
+                }
                 t.set("dest", self.place(destination, body, env));
                 t.set("t", J::opt_i(target.map(|b| b.as_u32() as i128)));
                 t.set("unwind", Self::unwind(unwind));
@@ -1078,6 +1085,9 @@ impl<'tcx> Cx<'tcx> {
     fn body(&mut self, body: &Body<'tcx>, env: TypingEnv<'tcx>, mono: bool) -> J {
         let mut o = J::obj();
         o.set("argc", J::Int(body.arg_count as i128));
+        if let Some(sp) = body.spread_arg {
+            o.set("spread", J::Int(sp.as_u32() as i128));
+        }
         let mut names: FxHashMap<mir::Local, String> = FxHashMap::default();
         for vdi in body.var_debug_info.iter() {
             if let mir::VarDebugInfoContents::Place(p) = &vdi.value {
@@ -1129,6 +1139,43 @@ fn has_walkable_mir<'tcx>(tcx: TyCtxt<'tcx>, inst: Instance<'tcx>) -> bool {
         | InstanceKind::ReifyShim(..)
         | InstanceKind::VTableShim(..)
         | InstanceKind::FnPtrAddrShim(..) => true,
+        _ => false,
+    }
+}
+
+/// std items whose monomorphic MIR is emitted so that the rule engine can see through them (a superset; the engine
+/// keeps its own list of what it actually splices).
+fn transparent_std<'tcx>(tcx: TyCtxt<'tcx>, inst: Instance<'tcx>) -> bool {
+    match inst.def {
+        InstanceKind::ClosureOnceShim { .. } | InstanceKind::FnPtrShim(..) | InstanceKind::ReifyShim(..) => true,
+        InstanceKind::Item(def) => {
+            let cr = tcx.crate_name(def.krate);
+            let cr = cr.as_str();
+            if cr != "core" && cr != "alloc" {
+                return false;
+            }
+            let p = with_no_trimmed_paths!(tcx.def_path_str(def));
+            const PREFIXES: &[&str] = &[
+                "core::option::Option::<T>::",
+                "core::result::Result::<T, E>::",
+                "core::result::Result::<&T, E>::",
+                "core::option::Option::<&T>::",
+                "core::option::Option::<&mut T>::",
+                "core::bool::<impl bool>::",
+                "<core::option::Option<T> as core::ops::try_trait::",
+                "<core::result::Result<T, E> as core::ops::try_trait::",
+                "<core::result::Result<T, F> as core::ops::try_trait::",
+                "<core::ops::control_flow::ControlFlow<B, C> as core::ops::try_trait::",
+                "core::cmp::PartialEq::ne",
+                "<T as core::convert::Into<U>>::into",
+                "<T as core::convert::TryInto<U>>::try_into",
+                "<T as core::convert::From<T>>::from",
+                "<I as core::iter::traits::collect::IntoIterator>::into_iter",
+                "core::iter::traits::iterator::Iterator::by_ref",
+                "core::ops::function::impls::",
+            ];
+            PREFIXES.iter().any(|x| p.starts_with(x))
+        }
         _ => false,
     }
 }
@@ -1363,6 +1410,7 @@ pub fn emit_crate<'tcx>(tcx: TyCtxt<'tcx>, name: &str, out_dir: &str) {
     root.set("roots", J::Arr(root_keys));
     let mut nodes: Vec<J> = vec![];
     let mut insts = J::obj();
+    let mut std_insts = J::obj();
     while let Some(inst) = queue.pop_front() {
         let key = cx.inst_key(inst);
         let mut node = J::obj();
@@ -1488,6 +1536,9 @@ pub fn emit_crate<'tcx>(tcx: TyCtxt<'tcx>, name: &str, out_dir: &str) {
             }
         }
         node.set("edges", J::Arr(edges));
+        // panic edges that are not calls: Assert terminators (overflow / bounds / div-by-zero / misaligned / null checks)
+        let n_asserts = mono.basic_blocks.iter().filter(|bb| !bb.is_cleanup && matches!(bb.terminator().kind, TerminatorKind::Assert { .. })).count();
+        node.set("asserts", J::Int(n_asserts as i128));
         nodes.push(node);
         if is_repo {
             let mut o = cx.def_meta(def);
@@ -1502,10 +1553,24 @@ pub fn emit_crate<'tcx>(tcx: TyCtxt<'tcx>, name: &str, out_dir: &str) {
             let b = cx.body(&mono, fm, true);
             o.set("body", b);
             insts.set(key, o);
+        } else if transparent_std(tcx, inst) {
+            // small std combinators / shims whose bodies the rules splice into their callers (see mb2rules/inline.py)
+            let mut o = J::obj();
+            o.set("key", J::s(key.clone()));
+            o.set("path", J::s(with_no_trimmed_paths!(tcx.def_path_str(def))));
+            o.set("crate", J::s(cx.crate_of(def)));
+            o.set("name", J::s(tcx.opt_item_name(def).map(|n| n.to_string()).unwrap_or_default()));
+            o.set("std", J::Bool(true));
+            o.set("inst_kind", J::s(kind));
+            o.set("closure", J::Bool(false));
+            let b = cx.body(&mono, fm, true);
+            o.set("body", b);
+            std_insts.set(key, o);
         }
     }
     root.set("graph", J::Arr(nodes));
     root.set("insts", insts);
+    root.set("std_insts", std_insts);
 
     cx.drain_adts();
     // drain may enqueue more (field types); loop until stable
